@@ -116,11 +116,24 @@ def sites(repo, shared=None):
         loc, glob = _local_names(f)
         m = f.module
 
+        # local names bound to a module-level object itself (``stack = _SHARED_STACK``): a write through the alias is a write to it
+        alias = {}
+        for a_ in _own_nodes(f.node):
+            if isinstance(a_, ast.Assign) and len(a_.targets) == 1 and isinstance(a_.targets[0], ast.Name):
+                vals_ = [a_.value.body, a_.value.orelse] if isinstance(a_.value, ast.IfExp) else [a_.value]
+                for v_ in vals_:
+                    if isinstance(v_, ast.Name) and (v_.id not in loc or v_.id in glob):
+                        s_ = _resolve_shared(repo, m, v_.id, shared)
+                        if s_ is not None:
+                            alias[a_.targets[0].id] = s_
+
         def obj_of(expr):
             d = dotted(expr)
             if d is None:
                 return None, None
             head = d.split('.')[0]
+            if head in loc and head not in glob and head in alias:
+                return alias[head], d[len(head) + 1:]
             if head in loc and head not in glob:
                 return None, None
             s = _resolve_shared(repo, m, head, shared)
